@@ -37,6 +37,10 @@ CLAIMED = {
          "Exploration by generated search: nesting depth 0-5 over ten construct kinds (plus extends), values of many kinds and sources, three escaper configurations, all documented SafeWriters and a custom one; HTML escaping is not idempotent, so 'escaped twice' and 'not escaped' both differ from the expectation.",
          'Trusts the reference interpreter (harness/mj) for the sub-language used; Renderer values are not generated (documented bypass); custom escapers are byte-wise (the printer legitimately writes in 4096-byte chunks).',
          'DESIGN.md section 5/C01'),
+ 'C05': ('property-based testing (rapid), model-based: generated nestings of if/else-if/else and range over a zoo of rangeable and non-rangeable Go values; oracle = MiniJet reference interpreter (exact output; multi-entry map ranges compared as multisets of per-entry renderings)',
+         'Exploration by generated search over ranger kind x variable form x :=/= x condition kind (label histogram in the evidence), nested ranges over the same collection, empty/nil variants with else branches, truthiness of loop bindings through every binding form.',
+         'Trusts the reference interpreter; custom Ranger fixtures keep their own cursor and are driven by model and engine alike; zero-valued structs/arrays, -0.0 and nil interface elements are not used as conditions / printed.',
+         'DESIGN.md section 5/C05'),
 }
 PENDING = {}
 
